@@ -293,3 +293,34 @@ func vtypeName(t parser.ValueType) string {
 	}
 	return "TNone"
 }
+
+// walkCustomShallow visits e and its descendants; f returns false to prune.
+func walkCustomShallow(e parser.Expr, f func(parser.Expr) bool) {
+	if e == nil || !f(e) {
+		return
+	}
+	switch n := e.(type) {
+	case *parser.StepInvariantExpr:
+		walkCustomShallow(n.Expr, f)
+	case *parser.MatrixSelector:
+		walkCustomShallow(n.VectorSelector, f)
+	case *parser.AggregateExpr:
+		if n.Param != nil {
+			walkCustomShallow(n.Param, f)
+		}
+		walkCustomShallow(n.Expr, f)
+	case *parser.Call:
+		for _, a := range n.Args {
+			walkCustomShallow(a, f)
+		}
+	case *parser.BinaryExpr:
+		walkCustomShallow(n.LHS, f)
+		walkCustomShallow(n.RHS, f)
+	case *parser.UnaryExpr:
+		walkCustomShallow(n.Expr, f)
+	case *parser.ParenExpr:
+		walkCustomShallow(n.Expr, f)
+	case *parser.SubqueryExpr:
+		walkCustomShallow(n.Expr, f)
+	}
+}
